@@ -188,9 +188,10 @@ namespace _fmt_basics {
 			emit_grouping();
 		}
 
+		// A left-justified field is always filled up with blanks (left_justify overrides zero padding).
 		if(left_justify && final_width < width)
 			for(int i = final_width; i < width; i++)
-				sink.append(padding);
+				sink.append(' ');
 	}
 
 	// Signed integer formatting. We cannot print -x as that might not fit into the signed type.
